@@ -105,13 +105,7 @@ func (f *fakeStack) dialTo(addr net.Addr) (*vquic.Conn, error) {
 	f.cls = append(f.cls, ep)
 	c, err := ep.tr.DialEarly(context.Background(), addr, nil, nil)
 	if err == nil && f.sc.maxStreams > 0 {
-		max := f.sc.maxStreams
-		c.OpenStreamErr = func(n int) error {
-			if n > max {
-				return vquic.StreamLimitReachedError{} // as harness/C16 injects it
-			}
-			return nil
-		}
+		c.MaxStreams = f.sc.maxStreams // vquic's own accounting returns quic-go's pointer form
 	}
 	return c, err
 }
@@ -222,7 +216,7 @@ func (f *fakeStack) newH3Client() h3Client {
 }
 
 func (h *fakeH3) RoundTrip(r *http.Request) (*http.Response, error) { return h.tr.RoundTrip(r) }
-func (h *fakeH3) Dials() int                                       { return h.dials }
+func (h *fakeH3) Dials() int                                        { return h.dials }
 func (h *fakeH3) Conn() xConn {
 	if h.conn == nil {
 		return nil
